@@ -404,6 +404,27 @@ def run(res, ctx):
         cases = [gen.gen_case(rng, p_invalid=0.03) for _ in range(min(batch, n - done))]
         check_cases(res, ctx, cases, "random")
         done += len(cases)
+    # crafted: positions with a cost base of exactly zero while shares are held (bought at price 0 without a
+    # commission; a return of capital that uses the cost base up) - a sale from them has a cost of 0, its gain is
+    # the proceeds
+    zero_cases = []
+    for _ in range(20 if tier == "quick" else 200):
+        d0 = gen.BASE_DAY + rng.randint(10, 300)
+        af = rng.choice([None, None, "B"])
+        nsh, px = rng.choice([3, 10, 40]), rng.choice([2, 5, 25])
+        def _z(day, act, **kw):
+            x = {"sec": "FOO", "td": d0 + day, "sd": d0 + day, "act": act, "com": None, "cur": None, "rate": None, "af": af}
+            x.update(kw)
+            return x
+        if rng.random() < 0.5:
+            rows = [_z(0, "Buy", sh=core.D(nsh), aps=core.D(0)), _z(50, "Sell", sh=core.D(1), aps=core.D(px * 100 + 1, 2)),
+                    _z(100, "Buy", sh=core.D(2), aps=core.D(px)), _z(150, "Sell", sh=core.D(nsh), aps=core.D(px + 1))]
+        else:
+            rows = [_z(0, "Buy", sh=core.D(nsh), aps=core.D(px)), _z(20, "RoC", aps=core.D(px)),
+                    _z(50, "Sell", sh=core.D(1), aps=core.D(px * 100 + 37, 2), com=core.D(rng.choice([0, 1]))),
+                    _z(150, "Sell", sh=core.D(nsh - 1), aps=core.D(px + 1))]
+        zero_cases.append({"rows": rows, "inits": {}})
+    check_cases(res, ctx, zero_cases, "zero-cost-base")
     # large magnitudes: the stored witness of the known class first, then scaled random histories
     known = known_findings()
     wit = [k for k in known if k.get("id") == "large-magnitude"]
